@@ -657,6 +657,24 @@ def DrawsLegal : State → List Event → Prop
   | _, [] => True
   | s, e :: t => DrawLegal s e ∧ DrawsLegal (step s e) t
 
+-- ---------------------------------------------------------------- the life cycle of the status (C07)
+
+/-- statuses from which a hand may be opened (`restoring` is a status of the Go type that no step of the model sets) -/
+def beforeHand (a : Status) : Bool :=
+  a == .created || a == .balancing || a == .pausing || a == .restoring || a == .standby
+
+/-- the steps of the life cycle: created / balancing / pausing / standby → opened → playing → settled → standby →
+(opened | pausing).  One event of the model may take two consecutive steps: the gate's callback opens the hand and hands
+it to the back end under one hold of the engine lock (→ opened → playing), the continue step without an interval resets the
+table and decides to pause in one go (settled → standby → pausing).  `opened → opened` is a hand the back end refused
+(`CreateGame` failed: no hand is unsettled) followed by the next open. -/
+def lcNext (a b : Status) : Bool :=
+  a == b
+  || ((beforeHand a || a == .opened) && (b == .opened || b == .playing))
+  || (a == .playing && b == .settled)
+  || (a == .settled && (b == .standby || b == .pausing))
+  || (a == .standby && b == .pausing)
+
 def normalize (s : State) : State := { s with sm := SM.normalize s.sm }
 
 end TB
